@@ -746,8 +746,11 @@ namespace vg
 
     inline double slope_exp_value(Src& s)
     {
-        static const double p[] = { 1.0, 0.0, 0.5, 1.1, 1.5, 2.0, 5.0, 10.0 };
-        return p[s.weighted({ 80, 30, 30, 36, 20, 30, 15, 15 })];
+        // "every slope exponent >= 0": large exponents too (with spacings far from 1, slope^p leaves
+        // the double range unless slopes are taken relative to the steepest one: seeded changes
+        // C03-F / C05-E need p >= ~100 at spacing 1e3 or 1e-3, p >= ~2200 with diagonal steepest descent)
+        static const double p[] = { 1.0, 0.0, 0.5, 1.1, 1.5, 2.0, 5.0, 10.0, 40.0, 150.0, 5000.0 };
+        return p[s.weighted({ 70, 30, 30, 30, 20, 30, 12, 12, 8, 8, 6 })];
     }
 
     inline std::string describe(const OpSpec& o)
